@@ -653,6 +653,50 @@ Definition chc_okb (sch : schema) : bool :=
     ((negb (ch_case x =? ch_case y) || (Bool.eqb (ch_dflt x) (ch_dflt y) && Bool.eqb (ch_mand x) (ch_mand y))) &&
      (negb (ch_dflt x && ch_dflt y) || (ch_case x =? ch_case y)))) (all_chcs sch)) (all_chcs sch).
 
+(* SPEC / hypothesis: the default instances D of schema node s are exactly the required ones *)
+Definition complete (sch : schema) (s : sid) (D : list dnode) : bool :=
+  match kind_of sch s with
+  | KLeaf => match si_dflts (sget sch s) with
+             | v :: _ => match D with [x] => beq_bytes (d_val x) v && is_nil (d_ch x) | _ => false end
+             | [] => false
+             end
+  | KLeafList => match si_dflts (sget sch s) with
+                 | [] => false
+                 | vs => same_vals (map d_val D) vs && forallb (fun x => is_nil (d_ch x)) D
+                 end
+  | KCont false => match D with [_] => true | _ => false end
+  | _ => false
+  end.
+
+
+(* edited data: a tree in normal form after edits through the API that mark what they touch as new (lyd_new_path,
+   lyd_change_term, lyd_insert_*, lyd_diff_apply, freeing nodes): per sibling list
+     - a new node is explicit;
+     - the default-flagged instances of a schema node are none or the complete set (one default leaf with the default
+       value, ALL default leaf-list values, one non-presence container) - this is what excludes the deviation
+       dflt-leaflist-partial - and no OLD explicit instance stands beside them (a new one may: validation removes the
+       defaults then);
+     - every node is an instance of a schema child of the parent; terminal nodes have no children;
+     - a non-presence container is default-flagged iff all its children are (lyd_np_cont_dflt_del / _set).
+   Siblings need not be canonical: after lyd_diff_apply a default and a new explicit instance of a leaf coexist. *)
+Definition edited_lvl (sch : schema) (p : option sid) (f : forest) : bool :=
+  forallb (fun n => negb (d_new n && d_dflt n)) f &&
+  forallb (fun n => existsb (N.eqb (d_sid n)) (schildren sch p)) f &&
+  forallb (fun s => let D := filter (is_dflt_of s) f in
+                    is_nil D || (complete sch s D && is_nil (filter (fun n => is_expl_of s n && negb (d_new n)) f)))
+          (schildren sch p).
+
+
+Fixpoint edited_node (sch : schema) (n : dnode) {struct n} : bool :=
+  match n with
+  | DN s v d m ch =>
+      (if is_np_cont sch s then Bool.eqb d (forallb d_dflt ch) else true) &&
+      (if is_inner sch s then edited_lvl sch (Some s) ch else is_nil ch) &&
+      (fix all (l : list dnode) : bool := match l with [] => true | x :: l' => edited_node sch x && all l' end) ch
+  end.
+Definition editedb (sch : schema) (f : forest) : bool := edited_lvl sch None f && forallb (edited_node sch) f.
+
+
 (* freshly parsed data (LYD_PARSE_ONLY of a document without empty non-presence containers and without default
    attributes): every node is new and explicit, a non-presence container has children *)
 Fixpoint fresh_node (sch : schema) (n : dnode) {struct n} : bool :=
